@@ -157,6 +157,49 @@ func s2Growth() []BashCase {
 }
 
 // S3: aliasing chains.
+// s6Histories: every sequence of three operations on one slice (in-range write, append, write beyond the end,
+// copy from a longer slice, write through an alias, write inside a function), then its contents.
+func s6Histories() []BashCase {
+	type op struct {
+		name string
+		st   func(k int) []Stmt
+	}
+	ops := []op{
+		{"set", func(k int) []Stmt { return []Stmt{SliceSet{"x", il(0), il(int64(100 + k))}} }},
+		{"append", func(k int) []Stmt { return []Stmt{SliceSet{"x", Len{vr("x")}, il(int64(200 + k))}} }},
+		{"gap", func(k int) []Stmt { return []Stmt{SliceSet{"x", bin("+", Len{vr("x")}, il(2)), il(int64(300 + k))}} }},
+		{"copy-longer", func(k int) []Stmt { return []Stmt{ExprStmt{Copy{"x", vr("long")}}} }},
+		{"alias-append", func(k int) []Stmt { return []Stmt{SliceSet{"al", Len{vr("al")}, il(int64(400 + k))}} }},
+		{"in-function", func(k int) []Stmt { return []Stmt{callS("grow", vr("x"), il(int64(500+k)))} }},
+	}
+	cases := []BashCase{}
+	for a := range ops {
+		for b := range ops {
+			for c3 := range ops {
+				stmts := []Stmt{
+					fn("grow", []Param{{"p", TSliceInt}, {"v", TInt}}, nil, SliceSet{"p", Len{vr("p")}, vr("v")}, SliceSet{"p", il(0), bin("+", vr("v"), il(1))}),
+					def("x", SliceLit{TInt, []Expr{il(1), il(2)}}), def("al", vr("x")),
+					def("long", SliceLit{TInt, []Expr{il(11), il(12), il(13), il(14), il(15), il(16)}}), def("short", SliceLit{TInt, []Expr{il(21)}}),
+					def("other", SliceLit{TInt, []Expr{il(9)}}),
+				}
+				stmts = append(stmts, ops[a].st(1)...)
+				stmts = append(stmts, ops[b].st(2)...)
+				stmts = append(stmts, ops[c3].st(3)...)
+				stmts = append(stmts, dumpSlice("x", TInt)...)
+				stmts = append(stmts, pr(Len{vr("al")}, Len{vr("long")}, Len{vr("short")}, Len{vr("other")}))
+				cases = append(cases, BashCase{Key: fmt.Sprintf("S6/%s/%s/%s", ops[a].name, ops[b].name, ops[c3].name), Prog: SingleFile(stmts)})
+			}
+		}
+	}
+	// index and value of an element assignment are both calls that share state
+	ivc := []Stmt{
+		def("n", il(0)), fn("next", nil, []Type{TInt}, IncDec{"n", true}, ret(bin("-", vr("n"), il(1)))),
+		def("out", SliceLit{TInt, nil}), SliceSet{"out", call("next"), bin("+", call("next"), il(4))}, SliceSet{"out", call("next"), bin("+", call("next"), il(4))},
+	}
+	cases = append(cases, BashCase{Key: "S6/index-and-value-calls", Prog: SingleFile(append(ivc, dumpSlice("out", TInt)...))})
+	return cases
+}
+
 // s3ManyParams: slices and strings handed over at parameter positions 1, 9, 10, 11 and 12.
 func s3ManyParams() []BashCase {
 	params := []Param{}
@@ -345,6 +388,7 @@ func c03Families(c *Check) []BashCase {
 	cases = append(cases, s3ManyParams()...)
 	cases = append(cases, s4Copy()...)
 	cases = append(cases, s5Range()...)
+	cases = append(cases, s6Histories()...)
 	return cases
 }
 
